@@ -158,7 +158,17 @@ def heap_obj(st, v):
 # ---------------------------------------------------------------------------
 # builtin functions
 # ---------------------------------------------------------------------------
+_mvlen_f = z3.Function("memoryview_len", BytesS, IntS)
+
+
 def length_of(eng, st, v):
+    if isinstance(v, VBytes):
+        k = simp(v.kind)
+        if not (z3.is_int_value(k) and k.as_long() != KIND_MEMORYVIEW):
+            # len(memoryview) counts items, not bytes: for an item size of 1, 2, 4 or 8 the byte length is that multiple of it
+            L, n = z3.Length(v.e), _mvlen_f(v.e)
+            st.fact(z3.And(n >= 0, z3.Or(L == n, L == 2 * n, L == 4 * n, L == 8 * n)))
+            return VInt(simp(z3.If(k == KIND_MEMORYVIEW, n, L)))
     if isinstance(v, (VBytes, VStr, VSeq)):
         return VInt(simp(z3.Length(v.e)))
     if isinstance(v, VTuple):
